@@ -203,8 +203,78 @@ def load(config, repo=None):
     p = facts_path(config, repo)
     if p not in _loaded:
         with open(p) as f:
-            _loaded[p] = json.load(f)
+            txt = f.read()
+        data = json.loads(txt)
+        aliases = module_aliases(data)
+        if aliases:
+            for sub, parent in aliases:
+                txt = txt.replace(sub + "::", parent + "::")
+            data = json.loads(txt)
+            data["module_aliases"] = aliases
+        _loaded[p] = data
     return _loaded[p]
+
+
+_anchor_cache = []
+
+
+def anchor_paths():
+    """Every crate-local definition path the rules name (collected from the rule sources themselves)."""
+    if _anchor_cache:
+        return _anchor_cache[0]
+    import glob
+    import re
+    pat = re.compile(r"[\"'<]((?:[a-z_][a-z_0-9]*::)+[A-Za-z_][A-Za-z_0-9]*(?:::[A-Za-z_][A-Za-z_0-9]*)?)")
+    out = set()
+    here = os.path.dirname(os.path.abspath(__file__))
+    for f in glob.glob(os.path.join(here, "*.py")) + glob.glob(os.path.join(here, "props", "*.py")):
+        for m in pat.finditer(open(f).read()):
+            a = m.group(1)
+            if not a.startswith(("core::", "alloc::", "std::", "gcv::")):
+                out.add(a)
+    _anchor_cache.append(out)
+    return out
+
+
+def module_aliases(data):
+    """Private items may move into a (new) private submodule without any behaviour changing
+    (`dynamic_roots::Slots` -> `dynamic_roots::slots::Slots`). The rules name items by their path on the pinned
+    tree; when such a path is gone and exactly one item of the same name exists deeper inside the same module, the
+    submodule is read as its parent (provided no two items collide). Returns [(submodule, parent)]."""
+    import re
+    items = set()
+    for a in data.get("adts", []):
+        items.add(re.sub(r"<.*", "", a["path"]))
+    for f in data.get("fns", []):
+        items.add(re.sub(r"::<[^>]*>|<[^>]*>", "", f["path"]))
+    items = {i for i in items if i and not i.startswith("<")}
+    aliases = {}
+    for a in anchor_paths():
+        segs = a.split("::")
+        # the type (or free function) part of the anchor: drop a trailing method segment when the one before is a type
+        heads = [a]
+        if len(segs) >= 3 and segs[-2][:1].isupper():
+            heads.append("::".join(segs[:-1]))
+        for h in heads:
+            if h in items or any(i.startswith(h + "::") for i in items):
+                break
+        else:
+            h = heads[-1]
+            hs = h.split("::")
+            first, rest = hs[0], "::".join(hs[1:])
+            c = sorted({i for i in items if i.startswith(first + "::") and i.endswith("::" + rest) and i != h})
+            if len(c) == 1:
+                sub = c[0][: -len("::" + rest)]
+                parent = "::".join(hs[:-len(rest.split("::"))])
+                if sub != parent and sub.startswith(parent + "::"):
+                    aliases[sub] = parent
+    out = []
+    for sub, parent in sorted(aliases.items()):
+        moved = {i for i in items if i.startswith(sub + "::")}
+        if any((parent + i[len(sub):]) in items for i in moved):
+            continue    # a name exists on both levels: not a plain move
+        out.append((sub, parent))
+    return out
 
 
 def load_many(configs, repo=None):
